@@ -316,11 +316,24 @@ def bfs_execute(spec, history, check_prefix=True):
     n = len(history)
     if n == 0:
         spec.invariant(st)
+    global S
     for i, act in enumerate(history):
         last = (i == n - 1)
         spec.step(st, act, check=(last or check_prefix))
         if last or check_prefix:
             spec.invariant(st)
+        elif getattr(spec, "observe_prefix", False):
+            # the state invariant *observes* the object (length, names, predicates ...).  A library that
+            # remembers what it was asked must be asked at every step of the history, as it was when the
+            # prefix states were explored; what is observed here was already judged there, so it is muted.
+            keep, S = S, Stats()
+            S.current_clause, S.current_case = keep.current_clause, keep.current_case
+            try:
+                spec.invariant(st)
+            except Exception:                                   # noqa -- judged when that prefix was a state
+                pass
+            finally:
+                S = keep
     # the canonical key is reduced to a 128-bit digest: keys built with deep_key are large and
     # would otherwise dominate the cost of shipping results to the parent
     key = spec.canon(st)
